@@ -806,7 +806,8 @@ func (p *g1JacExtended) doubleNegMixed(q *G1Affine) *g1JacExtended {
 	XX.Square(&q.X)
 	M.Double(&XX).
 		Add(&M, &XX)
-	Z.Square(&p.ZZ)
+	// a·ZZ² with a = 1 and ZZ = 1: q is an affine point (p.ZZ is the stale value of the receiver)
+	Z.SetOne()
 	M.Add(&M, &Z)
 	S2.Double(&S)
 	L.Mul(&W, &q.Y)
@@ -836,7 +837,8 @@ func (p *g1JacExtended) doubleMixed(q *G1Affine) *g1JacExtended {
 	XX.Square(&q.X)
 	M.Double(&XX).
 		Add(&M, &XX)
-	Z.Square(&p.ZZ)
+	// a·ZZ² with a = 1 and ZZ = 1: q is an affine point (p.ZZ is the stale value of the receiver)
+	Z.SetOne()
 	M.Add(&M, &Z)
 	S2.Double(&S)
 	L.Mul(&W, &q.Y)
